@@ -8,7 +8,7 @@
    state invariant (a valid index describes the rows) is kept, so every later read is exact
    (Prop_C01).  For every environment, query of any depth, measurement filter, state. *)
 From Coq Require Import List ZArith NArith Bool.
-From TF Require Import Base Query Index DB Spec proofs.IndexDefs proofs.RepP proofs.DBReadP proofs.DBRemoveP
+From TF Require Import Base Query Index DB Spec proofs.LawsP proofs.IndexDefs proofs.RepP proofs.DBReadP proofs.DBRemoveP
      proofs.DBStepP proofs.DBRunP proofs.DBSpecP.
 Import ListNotations.
 
@@ -35,7 +35,21 @@ Theorem C02_index_after_removal : forall i pts (rm : nat -> bool) nrm, Rep i pts
   nrm = length (filter rm (seq 0 (length pts))) -> Rep (ix_renumber (ix_remove i rm nrm) (renum rm)) (keep_rows rm pts).
 Proof. exact Rep_remove. Qed.
 
+(* what a removal selected is gone for every later read; removing it again removes nothing and changes nothing *)
+Theorem C02_removed_is_gone : forall E s q m, Inv s -> wf_query E q -> index_safe q ->
+  let s' := fst (db_remove E s q m) in
+  spec_search E q m false (st_rows s') = [] /\ spec_count E q m (st_rows s') = 0 /\ spec_contains E q m (st_rows s') = false /\
+  snd (db_remove E s' q m) = ONat 0 /\ st_rows (fst (db_remove E s' q m)) = st_rows s'.
+Proof. exact removed_is_gone. Qed.
+(* drop_measurement(name) is the removal by measurement name *)
+Theorem C02_drop_is_removal_by_name : forall E s name, Inv s -> name <> [] ->
+  st_rows (fst (db_drop E s name)) = st_rows (fst (db_remove E s (QS AMeas [] (TCmp Ceq (VStr name))) None)) /\
+  snd (db_drop E s name) = snd (db_remove E s (QS AMeas [] (TCmp Ceq (VStr name))) None).
+Proof. exact drop_is_removal_by_name. Qed.
+
 Print Assumptions C02_remove_exact.
+Print Assumptions C02_removed_is_gone.
+Print Assumptions C02_drop_is_removal_by_name.
 Print Assumptions C02_drop_measurement_exact.
 Print Assumptions C02_remove_all.
 Print Assumptions C02_others_untouched.
